@@ -20,7 +20,7 @@ SPEC = {
         "bitslice_new_ok": 10000, "bitslice_old_ok": 10000, "bitslice_points_ok": 500, "bitslice_blank_lines": 1000,
         "func_Y8": 100, "func_YUYV": 100, "func_RGB24": 100, "func_RGBA24": 100, "func_RGB16_LE": 100, "func_RGB16_BE": 100, "func_lowpass": 100,
         "configs_step_boundary_rate": 1000, "configs_signal_ends_at_window_end": 500, "configs_signal_starts_at_window_start": 500,
-        "histories_remove": 500, "histories_readd": 500,
+        "histories_remove": 500, "histories_readd": 500, "decodes_with_small_array": 5000, "decodes_with_exactly_fitting_array": 2000,
         "svc_ttx_a": 100, "svc_ttx_b_625": 100, "svc_ttx_c_625": 100, "svc_ttx_d_625": 100, "svc_vps": 100, "svc_wss_625": 100,
         "svc_cc_625_f1": 100, "svc_cc_625_f2": 100, "svc_ttx_b_525": 100, "svc_ttx_c_525": 100, "svc_ttx_d_525": 100,
         "svc_cc_525_f1": 100, "svc_cc_525_f2": 100,
